@@ -230,6 +230,11 @@ func arithS(g *G, bin, un []string, qs bool) {
 					continue
 				}
 				g.emit(mkA(op, c, x, x, 0, "", fresh), op)
+				if (op == "tointv" || op == "tointx" || op == "quantize") && g.R.Intn(4) == 0 {
+					ct := c
+					ct.T = 16 | 64 // Inexact | Rounded trapped
+					g.emit(mkA(op, ct, x, x, 0, "", fresh), op+"/trapped")
+				}
 			}
 		}
 	}
@@ -404,6 +409,7 @@ func init() {
 	drivers["specials"] = func(g *G) {
 		var vals []Dec
 		vals = append(vals, specialDecs...)
+		vals = append(vals, dirtySpecials()...)
 		for _, e := range []int{-2, 0, 3} {
 			vals = append(vals, finDec(false, bigInt(0), e), finDec(true, bigInt(0), e))
 		}
@@ -436,9 +442,35 @@ func init() {
 				for _, y := range vals {
 					for _, op := range bin {
 						g.emit(mkA(op, c, x, y, 0, "", fresh), op)
+						if (x.F >= 2 || y.F >= 2) && c.T == 0 { // a NaN operand that is also the destination
+							g.emit(mkA(op, c, x, y, 0, "dx", fresh), op+"/alias")
+							g.emit(mkA(op, c, x, y, 0, "dy", fresh), op+"/alias")
+						}
+					}
+				}
+				if x.F >= 2 && c.T == 0 {
+					for _, op := range un {
+						g.emit(mkA(op, c, x, x, 0, "dx", fresh), op+"/alias")
 					}
 				}
 			}
 		}
 	}
+}
+
+// dirtySpecials: infinities and NaNs whose (ignored) coefficient and exponent
+// fields are not zero - the representation an overflow leaves behind.
+func dirtySpecials() []Dec {
+	var out []Dec
+	for _, f := range []int{1, 2, 3} {
+		for _, n := range []bool{false, true} {
+			d := finDec(n, bigInt(99999), 7)
+			d.F = f
+			out = append(out, d)
+			d2 := finDec(n, bigInt(12), -40)
+			d2.F = f
+			out = append(out, d2)
+		}
+	}
+	return out
 }
